@@ -268,9 +268,9 @@ def selftest():
 
 
 core.register("C17", [
-    Facet("export", export_cases, check_export, n_quick=2000, shards_quick=8,
+    Facet("export", export_cases, check_export, n_quick=4000, shards_quick=8,
           rule=RULE),
-    Facet("import", graph_cases, check_import, n_quick=1600, shards_quick=4,
+    Facet("import", graph_cases, check_import, n_quick=3200, shards_quick=8,
           rule="generated simple pyzx graphs in random vertex order: the "
           "imported diagram denotes pyzx's matrix of the graph (up to the "
           "scalar, which graphs do not carry); ill-declared boundaries must "
